@@ -59,8 +59,9 @@ APP_EXT = {
     "cmd.get": Ext(ret=Bool, pure=True, uf="spcflag"), "spcflag": Ext(ret=Bool, pure=True, uf="spcflag"),
     "cmd.__contains__": Ext(ret=Bool), 'cmd.__delitem__("spc")': Ext(raises=["KeyError"]),
     'cmd.__delitem__("cwd")': Ext(note="only reached under `\"cwd\" in cmd`"),
-    "JsonHistoryFlusher": Ext(ret=Opaque("flusher"), event="flusher", log_type=Seq(CMD), log=1,
-                              note="takes its ticket in the FIFO queue and writes the handed-over commands (dump, below)"),
+    "JsonHistoryFlusher": Ext(ret=Opaque("flusher"), event="flusher", log_type=Seq(CMD), log=1, requires=["skip is not None"],
+                              note="takes its ticket in the FIFO queue and writes the handed-over commands (dump, below); EVERY flusher - the inline exit-time one included - "
+                                   "must be given the history's drop-counter callback (dump's precondition): len(history) is read after exit-time flushes too"),
 }
 KEPT = "(self.remember_history and not ignored(cmd) and not ('ignorespace' in histcontrol('HISTCONTROL', '') and spcflag(cmd, 'spc')))"
 contract(
